@@ -24,6 +24,8 @@ type DeclResult struct {
 	Scenario string   `json:"scenario"`
 	Decl     string   `json:"decl"`
 	DeclSexp string   `json:"decl_sexp"`
+	SpecSexp string   `json:"spec_sexp,omitempty"` // set when a nested-struct field carries markers: the declaration with those markers pushed down to the direct leaf fields
+	History  string   `json:"history,omitempty"`   // earlier version of the source that was generated in the same directory first
 	GenExit  int      `json:"gen_exit"`
 	GenErr   string   `json:"gen_err,omitempty"`
 	File     string   `json:"file,omitempty"`    // generated file name ("" = no file)
@@ -602,11 +604,26 @@ func (r *runner) generate(sc *Scenario) []*DeclResult {
 	dir := filepath.Join(r.mod(), pkg)
 	_ = os.MkdirAll(dir, 0o755)
 	src := sc.Source(pkg)
+	history := ""
+	if sc.Pre != nil {
+		// history: an earlier, larger version of the package is generated first; the files it leaves behind are
+		// then overwritten by the run under test
+		history = sc.Pre.Source(pkg)
+		_ = os.WriteFile(filepath.Join(dir, "x.go"), []byte(history), 0o644)
+		if o, c := r.cmd(r.mod(), r.govalid, "./"+pkg); c != 0 {
+			history += "\n// (generating the earlier version failed: " + tail(o, 300) + ")"
+		}
+	}
 	_ = os.WriteFile(filepath.Join(dir, "x.go"), []byte(src), 0o644)
 	out, code := r.cmd(r.mod(), r.govalid, "./"+pkg)
 	var res []*DeclResult
 	for _, d := range sc.Decls {
-		dr := &DeclResult{Scenario: sc.ID, Decl: d.Name, DeclSexp: d.Sexp(), GenExit: code, Source: src}
+		dr := &DeclResult{Scenario: sc.ID, Decl: d.Name, DeclSexp: d.Sexp(), GenExit: code, Source: src, History: history}
+		if hasMarkedNest(d.Fields) {
+			pd := *d
+			pd.Fields = pushdown(d.Fields, nil)
+			dr.SpecSexp = pd.Sexp()
+		}
 		if code != 0 {
 			dr.GenErr = tail(out, 1500)
 		}
